@@ -96,6 +96,75 @@ CLAIMED = {
             'mutual inverses. Correctness of inverse()/rotation themselves is C04/C02.',
             'Trusted: CPython ast, C02, C04, entailment helper.',
             'DESIGN.md 3 (R10, R11), 4 (C10)'),
+    'C12': ('affine / slice normal forms of the map<->state row permutations, call binding and class inference of the '
+            'constructors, guard dominance and ordering facts of stabilizer_state, projection-kernel model',
+            'Decides that map_to_state / state_to_map (both packages) send X images to destabilizer rows and Z images to '
+            'stabilizer rows, identically for strings and phases, and are mutually inverse for all N; that conversions and '
+            'named constructors bind (gs, ps, r) and return the documented class; that stabilizer_state rejects anticommuting '
+            'input before projecting, stores the rank and assigns signs to the active rows in input order; to_qutip structure. '
+            'That projection + sign assignment denote the joint +1 eigenspace is NOT decided.',
+            'Trusted: CPython ast, layout docstring, naming scheme, class inference, C05.',
+            'DESIGN.md 3 (R13, R2, R11, R18, R9), 4 (C12)'),
+    'C13': ('sibling cross-check of the two packages on extracted normal forms, tables, permutations, kernel records, '
+            'signatures and result classes; banned-call scan; liveness of pure results; R1 on the torch namesakes',
+            'Port equivalence is decided where both sides reduce to the same finite object: truth tables of the arithmetic '
+            'kernels, reader/writer/scalar/qutip tables, row permutations, rotation/combine/transform records, row-class '
+            'guards and replacement blocks of the torch projection kernels, circuit wiring, parameter lists and result classes. '
+            'Numerical equality of the vectorised re-implementations that use a different algorithm is NOT decided; the torch '
+            'GF(2) rank delegating to real matrix_rank is a recorded known finding.',
+            'Trusted: CPython ast, oracle, class inference, effects.py.',
+            'DESIGN.md 3 (R8, R12, R13, R17, R16, R18, R1), 4 (C13)'),
+    'C14': ('in/out discipline and binding at MeasureLayer.forward, entailment of take guards, order signatures of '
+            'Circuit.forward/backward, pairing of record and log2prob, evaluated sign/bit conversions, post-selection kernel model',
+            'Decides the trajectory wiring for all circuits and records: measurement layers measure Z (slot 2q+1) through the '
+            'measurement kernel and store gs, ps, r; gates never cross a measurement layer; records and log-probabilities are '
+            'accumulated in order and consumed in reverse with the right slices, bits and signs; impossible records raise; '
+            'postselect honours the operator sign and needs a pure state; the post-selection kernel halves / zeroes the '
+            'probability and writes nothing when determined. Born probability values are NOT decided.',
+            'Trusted: CPython ast, layout docstring, C05/C06, entailment helper.',
+            'DESIGN.md 3 (R5, R11, R10, R12, R3, R9), 4 (C14)'),
+    'C15': ('isinstance-chain shadowing over all arithmetic dunders, syntactic may-dependence of denotation functions on '
+            'denotation fields, constant tables c = i^k, wiring of derived operators, parallel concatenation, reduce normal form',
+            'Decides structural faithfulness of the algebra: no dispatch branch is dead for a subclass, every denotation '
+            'function reads every denotation field (a field never read is provably ignored), scalar constants and derived '
+            'operators are right, sums and reduction move gs / ps / cs together with phases folded as i^ps, qutip export tables '
+            'match the Pauli matrices. Pauli.trace / PauliList.trace ignoring the phase is a recorded known finding (pinned by '
+            'a baseline test). Numerical identity of exported matrices is NOT decided.',
+            'Trusted: CPython ast, oracle letters, class hierarchy.',
+            'DESIGN.md 3 (R14, R6, R12, R13), 4 (C15)'),
+    'C16': ('draw-site rule, phase-kind dataflow, expression normal form of the commutation flip, sampler structure and '
+            'liveness, path enumeration of random-gate dispatch',
+            'Decides only the clauses visible in the code shape: all draws are fair bits (or the literal [0,2]), signs are '
+            '2*bit, the random_pair flip provably toggles the anticommutation bit at a nontrivial site, the recursive sampler '
+            'keeps the un-rotation result, map-less gates draw a fresh random_clifford_map on every call and never cache it, '
+            'rcc constructors place map-less gates on the documented patterns. Validity by construction and UNIFORMITY over '
+            'the Clifford group are distributional facts and are NOT decided.',
+            'Trusted: CPython ast, oracle, effects.py, randint semantics.',
+            'DESIGN.md 3 (R15, R3, R8, R16, R11), 4 (C16)'),
+    'C18': ('R1 reference resolution over the cones, generator->gate wiring queries, offset agreement (2*i0 vs arange(i0,N)), '
+            'mirrored-rotation rule in the diagonalisation kernels, SBRG loop wiring',
+            'Claimed narrowly: the cones of diagonalize / SBRG contain no definitely-failing reference; generators are wrapped '
+            'and taken in order with matching qubit / column offsets and signs; the encoding map is the backward map; each '
+            'emitted generator is mirrored on the tracked strings; SBRG copies, composes and applies the same circuit and '
+            'masks the right slots. That the generators actually diagonalise and SBRG exactness are NOT decided (finite case '
+            'analysis over symbolic strings / numerical).',
+            'Trusted: CPython ast, installed numpy/torch namespaces, C02, C09.',
+            'DESIGN.md 3 (R1, R13, R7, R4), 4 (C18)'),
+    'C19': ('parallel-index rule on sample / density_matrix, draw-site rule, evaluated weight, effect summaries for snapshots, '
+            'povm structure',
+            'Claimed narrowly: samples and the density-matrix expansion combine rows [r:N] of both arrays with a fair / complete '
+            'selector and weight 2^-N; snapshots never write the base state and copy it faithfully; povm starts from a fresh '
+            'zero state per sample. Uniformity of samples and overlap properties of snapshots are NOT decided.',
+            'Trusted: CPython ast, effects.py, C03, C05, C06, C17.',
+            'DESIGN.md 3 (R13, R15, R6, R4), 4 (C19)'),
+    'C20': ('reader/writer table extraction by guard evaluation and fold of the reader table over printed prefixes, token '
+            'normal forms, constant tables, parallel indexing',
+            'Complete for the finite tables: reader(writer(x)) = x is decided on all letters, all four printed prefixes, all '
+            'letter and phase tokens; letters equal the Pauli-matrix oracle; c = i^k for scalar multiples / negation; indexing '
+            'selects gs, ps, cs together; N / L / weight use the interleaved layout; allocation and trimming arithmetic of the '
+            'parser; both packages agree. numpy/torch indexing semantics are trusted.',
+            'Trusted: CPython ast, oracle letters, guard evaluation.',
+            'DESIGN.md 3 (R12, R8, R13), 4 (C20)'),
     'C11': ('constant-table extraction by guard evaluation + literal folding, checked against first-principles '
             'Pauli algebra (symplectic validity, textbook action, distinctness, group closure)',
             'Complete static decision of the finite gate tables: all 31 literal tables (5 named, 24 indexed, 2 CNOT '
